@@ -145,10 +145,10 @@ impl<T: crate::EventSource> TransientSourceState<T> {
     }
     open spec fn unregister_req(&self) -> bool { crate::sources::obeys_protocol::<T>() && self.st().inv(true) }
     open spec fn unregister_ens(o: &Self, n: &Self, ok: bool) -> bool {
-        // (Register and Replace start states: the never-registered child is unregistered -- known findings
-        //  F6b/F6d, reported as failing child preconditions at those two call sites)
-        &&& (o.st() is Register || o.st() is Replace || (ok ==> n.st().inv(false)))
-        &&& (o.st() is Register || o.st() is Replace || (!ok ==> n.st().inv(true)))
+        // (a child waiting for its first registration -- state Register, or the `new` of a Replace -- is NOT unregistered:
+        //  defects F6b/F6d, repaired; the child preconditions at the call sites of this function are what failed)
+        &&& ok ==> n.st().inv(false)
+        &&& !ok ==> n.st().inv(true)
         &&& ok ==> (n.st() is Keep || n.st() is Register || n.st() is Disable || n.st() is None)
     }
     open spec fn process_req(&self) -> bool { crate::sources::obeys_protocol::<T>() && self.st().inv(true) }
